@@ -211,6 +211,14 @@ def _int_operand(draw, ctx, depth, nonneg, small_exp):
     if small_exp:
         return A.Operand("", A.Num("int", str(draw(st.integers(0, 3)))))
     signs = "" if nonneg else draw(st.sampled_from(["", "", "", "", "-", "+", "--", "-+"]))
+    if depth > 0 and draw(st.integers(0, 14)) == 0:
+        # an integer power just below the int64 limit: b**e in [2**55, 2**63)
+        b = draw(st.sampled_from([2, 3, 5, 6, 7, 10]))
+        e = 1
+        while b ** (e + 1) < 2 ** 63:
+            e += 1
+        e -= draw(st.integers(0, 2))
+        return A.Operand(signs, A.Paren(A.Flat([A.Operand("", A.Num("int", str(b))), A.Operand("", A.Num("int", str(e)))], ["**"])))
     choices = ["lit", "lit"]
     if ctx.int_leaf_names():
         choices += ["var", "var"]
@@ -327,6 +335,10 @@ def _num_operand(draw, ctx, depth, kind, symbolic, prev_op, base_positive_litera
             return A.Operand(signs, A.Num("int", str(draw(st.integers(1, 9)))))   # (a literal 0 factor cancels the symbols)
         return A.Operand(signs, draw(num_int()))
     if k == "float":
+        if symbolic and draw(st.integers(0, 9)) == 0:
+            # coefficients that a "simplifier" would drop or snap: tiny ones and 10-digit approximations of simple fractions
+            return A.Operand(signs, A.Num("float", draw(st.sampled_from(["3e-11", "2.5e-12", "1e-13", "0.3333333333", "0.6666666667",
+                                                                          "0.1428571429", "0.7071067812", "1.0000000001", "2.9999999999"]))))
         if not symbolic and draw(st.integers(0, 11)) == 0:
             return A.Operand(signs, draw(num_float(moderate=False)))  # exponents up to e+-30
         return A.Operand(signs, draw(num_float()))
@@ -358,7 +370,16 @@ def _num_operand(draw, ctx, depth, kind, symbolic, prev_op, base_positive_litera
     fam = draw(st.sampled_from(["any", "any", "unit", "pos"]))
     if fam == "any":
         fn = draw(st.sampled_from(_REAL_FUNCS_ANY))
-        if fn in ("exp", "sinh", "cosh"):
+        if fn in ("sin", "cos", "tan", "arctan", "tanh", "arcsinh", "sinh") and draw(st.integers(0, 4)) == 0:
+            # tiny arguments and arguments next to a zero of the function: the result is small, relative accuracy still counts
+            tiny = A.Num("float", "%de-%d" % (draw(st.integers(1, 9)), draw(st.integers(3, 9))))
+            if fn == "cos" or draw(st.integers(0, 3)) == 0:
+                arg = A.Flat([A.Operand("", PI), A.Operand("", A.Num("int", "2")), A.Operand("", tiny)], ["/", draw(st.sampled_from(["+", "-"]))])
+                if fn != "cos":
+                    arg = A.Flat([A.Operand("", PI), A.Operand("", tiny)], [draw(st.sampled_from(["+", "-"]))]) if fn in ("sin", "tan") else F1(tiny)
+            else:
+                arg = F1(tiny, draw(st.sampled_from(["", "-"])))
+        elif fn in ("exp", "sinh", "cosh"):
             # (arguments of moderate size: exp overflows beyond ~709)
             arg = F1(A.Num("float", "%d.%d" % (draw(st.integers(0, 9)), draw(st.integers(0, 999)))), draw(st.sampled_from(["", "-"])))
             if ctx.real_leaf_names() and draw(st.integers(0, 2)) == 0:
@@ -604,6 +625,8 @@ def array_decl(draw, ctx, symbolic=None, name=None, max_rows=4, max_cols=5):
         name = _decl_name(draw, ctx)
     r = draw(st.integers(1, max_rows))
     c = draw(st.integers(1, max_cols))
+    if draw(st.integers(0, 11)) == 0:
+        r, c = draw(st.sampled_from([(1, 11), (1, 12), (2, 11), (11, 1), (12, 2), (1, 23)]))     # more than ten rows / columns
     with_shape = draw(st.booleans())
     sym = False
     if symbolic == "params" and ctx.params and draw(st.integers(0, 2)) == 0:
@@ -787,6 +810,12 @@ def script(draw, cfg=Cfg()):
         if cfg.tdm:
             pn = pn.filter(lambda n: not (n[0] == "p" and n[1:].isdigit()))
         ctx.params = draw(st.lists(pn, min_size=1, max_size=4 if not cfg.names else 2, unique=True))
+        if not cfg.names and not cfg.tdm and draw(st.integers(0, 3)) == 0:
+            # a name and the same name with an underscore suffix (g / g_max, theta / theta_1)
+            base = ctx.params[0]
+            extra = base + draw(st.sampled_from(["_1", "_max", "_0", "_b"]))
+            if extra not in ctx.params and _is_name(extra):
+                ctx.params.append(extra)
     if cfg.regs:
         nums = draw(st.lists(st.one_of(st.integers(0, 12), st.integers(0, 12), st.integers(0, 999)), min_size=1, max_size=4, unique=True))
         ctx.regs = ["q" + draw(st.sampled_from(["", "", "", "0", "00"])) + str(n) for n in nums]
